@@ -57,6 +57,14 @@ def replay(recs):
             L = [g.Line(np.array(l)) for l in r["ls"]]
             case = {"vertex": r["v"], "lines": r["ls"], "params": r["q"]}
             chk("crossratio(lines)", st, case, r["cr"], lambda: g.crossratio(*L), lambda v: cr_ok(v, r["cr"]))
+        elif t == "lines3":
+            V = g.Point(np.array(r["v"]))
+            case = {"vertex": r["v"], "points": r["pts"], "params": r["q"]}
+            chk("crossratio(lines)/3D", st, case, r["cr"], lambda: g.crossratio(*[g.Line(V, g.Point(np.array(p))) for p in r["pts"]]),
+                lambda v: cr_ok(v, r["cr"]))
+            chk("crossratio(lines)/3D/scaled-representatives", st, case, r["cr"],
+                lambda: g.crossratio(*[g.Line(g.Point(np.array(r["v"]) * f), g.Point(np.array(p) * -2)) for p, f in zip(r["pts"], [2, -1, 0.5, -3])]),
+                lambda v: cr_ok(v, r["cr"]))
         elif t == "planes":
             E = [g.Plane(np.array(e)) for e in r["es"]]
             case = {"axis": [r["A"], r["B"]], "planes": r["es"], "params": r["q"]}
@@ -124,7 +132,7 @@ def _work(job):
 
 
 TIER = {"quick": dict(stride=3), "thorough": dict(stride=1)}
-TASKS = ["pts1", "pts2", "pts3", "lines", "planes", "frompt", "harm", "err"]
+TASKS = ["pts1", "pts2", "pts3", "lines", "lines3", "planes", "frompt", "harm", "err"]
 
 
 def run(ctx: Ctx):
@@ -138,6 +146,7 @@ def run(ctx: Ctx):
         strata[(x["r"]["t"], x["s"])] = strata.get((x["r"]["t"], x["s"]), 0) + 1
     for need in [("pts", "param-infinity"), ("pts", "param-origin"), ("pts", "repeated-point"), ("lines", "vertex-on-y-axis"),
                  ("lines", "vertex-origin"), ("lines", "vertex-at-infinity"), ("lines", "vertex-on-x-axis"), ("planes", "general"),
+                 ("lines3", "general"), ("lines3", "vertex-origin"), ("lines3", "vertex-at-infinity"), ("lines3", "repeated-line"),
                  ("frompt", "general"), ("harm", "param-infinity"), ("err", "not-collinear"), ("err", "collinear")]:
         if not strata.get(need):
             raise MachineryError(f"stratum {need} never visited (vacuous)")
